@@ -13,6 +13,7 @@ __all__ = (
     "StaticUseDep",
     "SubSlotDep",
     "UseDepDefault",
+    "VersionGlobMatch",
     "VersionMatch",
 )
 
@@ -152,6 +153,26 @@ class VersionMatch(packages.PackageRestriction):
 
     def match(self, pkg, *args, **kwds):
         return self.restriction.match(pkg)
+
+
+class VersionGlobMatch(values.StrGlobMatch):
+    """'=...*' matching: the written version must be a prefix of the package's
+    full version that ends on a version component boundary, so that
+    =cat/pkg-1* matches 1, 1.2 and 1_rc1 but not 10."""
+
+    __slots__ = ()
+
+    def match(self, value):
+        value = str(value)
+        glob = self.glob
+        matched = value.startswith(glob)
+        if matched and len(value) > len(glob):
+            following = value[len(glob)]
+            matched = (
+                following in (".", "_", "-")
+                or glob[-1].isdigit() != following.isdigit()
+            )
+        return matched ^ self.negate
 
 
 class SlotDep(packages.PackageRestriction):
